@@ -153,3 +153,34 @@ class Unpicklable:
 
   def __repr__(self):
     return f'Unpicklable({self.tag})'
+
+
+# ---- a sliced aggregate: slice values that appear only in some shards (C16) -------
+
+def sliced_rows(total, batch_size, shard_index=0, num_shards=1):
+  """Like sharded_rows, as dict batches with a slice column: every batch has
+  its own slice value plus one shared value, so most slice keys exist in one
+  shard only."""
+  for rows in sharded_rows(total, batch_size, shard_index, num_shards):
+    j = rows[0] // 100
+    yield {'x': rows, 'k': [f'b{j}' if r % 2 == 0 else 'shared' for r in rows]}
+
+
+def times10_col(xs):
+  return [x * 10 for x in xs]
+
+
+def sliced_pipeline(total, batch_size, shard_index=0, num_shards=1, fuse=True,
+                    num_threads=0, agg=True):
+  from ml_metrics._src.chainables import transform
+  data = transform.TreeTransform.new(name='datasource').data_source(
+      sliced_rows(total, batch_size, shard_index, num_shards))
+  apply = transform.TreeTransform.new(
+      name='apply', num_threads=num_threads).assign(
+          'y', fn=times10_col, input_keys='x')
+  if fuse:
+    return data.chain(apply.aggregate(
+        input_keys='y', output_keys='stats', fn=SumCount()).add_slice('k'))
+  return data.chain(apply).chain(
+      transform.TreeTransform.new(name='agg').aggregate(
+          input_keys='y', output_keys='stats', fn=SumCount()).add_slice('k'))
